@@ -1,7 +1,15 @@
 """C03 -- supervised prediction equals the exhaustive minimum of max(cost, distance)."""
 from . import sup
 
-RUN = ("checks.sup", "run_config")
+RUN = ("checks.c03", "run")
+
+
+def run(cfg):
+    if cfg.get("kind") == "predict":
+        from . import knn
+        return knn.run_config(cfg)
+    return sup.run_config(cfg)
+
 
 
 def configs(tier, seed):
@@ -21,12 +29,26 @@ def configs(tier, seed):
             for branch in ("pre", "fn"):
                 cfgs.append(dict(n=n, nu=nu, nq=1, K=2, part=list(part), branch=branch, semi=True,
                                  weight=10 ** (n + nu) * 4, wstride=53))
+    # state-injected: arbitrary forest (symbolic costs and labels, every conquest order with non-decreasing
+    # cost -- the post-condition C01 establishes), one or two symbolic queries
+    for n in ([2, 3, 4, 5] if tier == "quick" else [2, 3, 4, 5, 6, 7]):
+        for branch in ("pre", "fn"):
+            if n >= 6 and branch == "fn":
+                continue
+            cfgs.append(dict(kind="predict", model="sup", n=n, k=1, branch=branch, nq=1 if n >= 5 else 2,
+                             batches=[[0]] if n >= 5 else [[0, 1]], weight=(n ** n) * 3, wstride=1 if n <= 3 else 101))
     return cfgs
+
+
+def signature(prop, cfg, viol):
+    from .driver import strip_idx
+    return "%s:%s:%s" % (prop, cfg.get("kind", "end-to-end"), strip_idx(viol["name"]))
 
 
 def describe(v, tier):
     v.bounds = dict(n_training_samples="2..4 (quick) / 2..5 (thorough)", queries_per_batch="1..2",
-                    harness="end-to-end: real fit, then real predict on symbolic query distance vectors",
+                    harness="end-to-end: real fit, then real predict on symbolic query distance vectors; and state-injected: "
+                            "arbitrary forest with n<=5 (quick) / n<=7 (thorough) nodes, symbolic costs/labels, every cost-compatible conquest order",
                     weight_branches=["pre_computed_distance matrix", "distance_fn callable"])
     v.assumptions = ["0 <= W[i][j] < sys.float_info.max, symmetric; query distances are further free entries of W "
                      "(equal to training distances, tied and arbitrarily large values are all allowed)"]
